@@ -44,6 +44,10 @@ def defaultIndexNames : List String := ["index.html", "index.txt"]
     `if x.F == "" / nil { x.F = v }` in source order: (type, field, v) -/
 def fileserverProvisionDefaults : List (String × String × String) := [("FileServer", "FileSystem", "\"{http.vars.fs}\""), ("FileServer", "Root", "\"{http.vars.root}\""), ("FileServer", "IndexNames", "defaultIndexNames"), ("MatchFile", "Root", "\"{http.vars.root}\""), ("MatchFile", "FileSystem", "\"{http.vars.fs}\""), ("MatchFile", "TryFiles", "[{http.request.uri.path}]")]
 
+/-- modules/caddyhttp/fileserver: every `caddyhttp.SetVar(ctx, key, …)` (a write into the request's variable
+    table, shared by all handlers of the request): (file, function, key) -/
+def fileserverVarWrites : List (String × String × String) := [("matcher.go", "Match", "caddyhttp.MatcherErrorVarKey")]
+
 /-- FileServer.ServeHTTP: every call of fileHidden / fs.Stat / openFile / serveBrowse / getEtagFromFile /
     notFound / redirect / http.ServeContent in source order, with the file-name argument -/
 def serveHTTPCalls : List (String × String) := [("fs.Stat", "filename"), ("fsrv.notFound", ""), ("fileHidden", "indexPath"), ("fs.Stat", "indexPath"), ("fileHidden", "filename"), ("fsrv.serveBrowse", "filename"), ("fsrv.notFound", ""), ("fileHidden", "filename"), ("fsrv.notFound", ""), ("redirect", ""), ("redirect", ""), ("fileHidden", "compressedFilename"), ("fs.Stat", "compressedFilename"), ("fsrv.openFile", "compressedFilename"), ("fsrv.getEtagFromFile", "compressedFilename"), ("fsrv.openFile", "filename"), ("fsrv.notFound", ""), ("fsrv.getEtagFromFile", "filename"), ("http.ServeContent", "")]
